@@ -281,3 +281,30 @@ _HR2 = {"a": I("X", (), "neg"), "b": I("X", (), "pos"), "c": I("Y", (), "neg"), 
 T("np.histogram2d", "range-flat|(6,)", lambda x, y, a, b, c, d: np.histogram2d(x, y, bins=2, range=_rng(a * 8, b * 8, c * 8, d * 8)), dict({"x": I("X", (6,)), "y": I("Y", (6,))}, **_HR2), cls="other")
 T("np.histogramdd", "range-flat|(6,)x2", lambda x, y, a, b, c, d: np.histogramdd((x, y), bins=2, range=_rng(a * 8, b * 8, c * 8, d * 8)), dict({"x": I("X", (6,)), "y": I("Y", (6,))}, **_HR2), cls="other")
 T("np.histogram", "range-q|(6,)", lambda x, a, b: np.histogram(x, bins=3, range=(a * 8, b * 8)), {"x": I("X", (6,)), "a": I("X", (), "neg"), "b": I("X", (), "pos")}, cls="other")
+
+# ---- operands of different dtypes: the computation is NumPy's on the bare data, whatever width the unit-carrying operand has
+def _ss_int(a, **kw):
+    h = np.sort(a.astype(np.int64))
+    return np.searchsorted(h, h.astype(np.float64) * 1.0625, **kw)  # needles just off the integers: a cast to int moves them back
+
+
+def _ss_f32(a, **kw):
+    h = np.sort(a.astype(np.float32))
+    return np.searchsorted(h, h.astype(np.float64) * (1 + 2.0**-30), **kw)  # needles between float32 neighbours
+
+
+def _ss_int_method(a, **kw):
+    h = np.sort(a.astype(np.int64))
+    return h.searchsorted(h.astype(np.float64) * 1.0625, **kw)
+
+
+for _kw in ({}, {"side": "right"}):
+    T("np.searchsorted", f"int-array,float-needle,{_kw.get('side', 'left')}|(6,)", (lambda a, kw=_kw: _ss_int(a, **kw)), {"a": I("X", (6,))}, cls="bare", noncov="integer truncation of the sorted array is not scale-covariant")
+    T("np.searchsorted", f"float32-array,float64-needle,{_kw.get('side', 'left')}|(6,)", (lambda a, kw=_kw: _ss_f32(a, **kw)), {"a": I("X", (6,))}, cls="bare", noncov="float32 rounding of the sorted array is not scale-covariant")
+    T("ndarray.searchsorted", f"int-array,float-needle,{_kw.get('side', 'left')}|(6,)", (lambda a, kw=_kw: _ss_int_method(a, **kw)), {"a": I("X", (6,))}, cls="bare", noncov="integer truncation of the sorted array is not scale-covariant")
+# the very same object on both sides: NaN still differs from itself
+for name in ("array_equal", "array_equiv"):
+    T("np." + name, "same-object,nan|(4,)", (lambda a, f=getattr(np, name): f(a, a)), {"a": I("X", (4,), "nan")}, cls="bare")
+    T("np." + name, "same-object|(4,)", (lambda a, f=getattr(np, name): f(a, a)), {"a": I("X", (4,))}, cls="bare")
+T("np.array_equal", "same-object,nan,equal_nan|(4,)", lambda a: np.array_equal(a, a, equal_nan=True), {"a": I("X", (4,), "nan")}, cls="bare")
+T("np.array_equal", "same-object,complex-nan|(4,)", lambda a: np.array_equal(a * (1 + 0j), a * (1 + 0j)) and np.array_equal(a, a), {"a": I("X", (4,), "nan")}, cls="bare")
